@@ -22,9 +22,11 @@ CONFIG = {
                   "select~operators for any number of named graphs, find_subject (log2), and the prettifier "
                   "(pretty_depth_bounded: <= 1 + 6 * nesting of quoted triples, collections, annotations AND anonymous "
                   "blank nodes). (3) table_verdict / table_status / all_bounded lift this to the harness families of every "
-                  "size through those general theorems. FINDING, kernel-checked: the prettifier is NOT bounded by the nesting "
-                  "of the data (pretty_full_refuted: a chain of n blank nodes = n plain statements needs 5n+1 nested calls); "
-                  "pretty_chain_status follows the generated prettyBnodeNestingCap. "
+                  "size through those general theorems. The prettifier without a cap on [ ] nesting is NOT bounded by the "
+                  "nesting of the data (pretty_full_refuted: a chain of n blank nodes = n plain statements needs 5n+1 nested "
+                  "calls - the defect fixed in /repo da7f8f8); the repaired text walks the cut tree: "
+                  "pretty_repaired_depth_bounded (<= 1 + 6 * (data nesting + cap) for every tree), pretty_cap_present "
+                  "(decided on the constant regenerated from _pretty.rs on every run), pretty_chain_bounded. "
                   "Differential (not proof): that one active call costs one stack frame - 59 sites run the real operations "
                   "in child processes on std::thread::Builder::stack_size(2 MiB) at 2*10^5 (quick) / 10^3..10^6 (thorough) "
                   "elements, dev profile (release additionally in the thorough tier); the stack high-water mark at 100, 400 "
@@ -57,6 +59,8 @@ CONFIG = {
         "cmp_bindings_depth_bounded", "order_by_depth_bounded", "jsonify_depth_bounded",
         "into_json_depth_bounded", "populate_convert_depth_bounded", "select_depth_bounded",
         "pretty_depth_bounded", "pretty_full_refuted", "pretty_depth_bounded_partial", "pretty_chain_status",
+        "pretty_repaired_depth_bounded", "pretty_repaired_props_bounded", "pretty_repaired_full", "cut_chain",
+        "pretty_cap_present", "pretty_chain_bounded",
         "table_names_known", "table_all_bounded", "table_verdict", "table_refuted", "table_status",
         "all_bounded",
     ],
@@ -161,23 +165,3 @@ def c16_jsonld_list(failure):
     """engine.rs mark_list_node / populate_list recurse per list cell"""
     return (_overflow_at(failure, ["jsonld_list"], fn="engine::mark_list_node")
             or _overflow_at(failure, ["jsonld_list"], fn="engine::populate_list"))
-
-
-@predicate
-def c16_pretty_bnode_chain(failure):
-    """_pretty.rs nests anonymous blank nodes without limit: only the chain site, only while the table has no data
-    recursion behind that site (a recursive DedupIterator / find_subject is a different failure) and the model -
-    i.e. the regenerated prettyBnodeNestingCap = none - itself says that the depth follows the chain"""
-    if _site_of(failure) != "turtle_chain":
-        return False
-    impl, model = kv(failure["impl"]), kv(failure["model"])
-    if model.get("rec") != "-" or model.get("class") != "recursiveOnNesting":
-        return False
-    try:
-        if int(model["depth3"]) < int(model["depth1"]) + 1500:
-            return False
-    except (KeyError, ValueError):
-        return False
-    if impl.get("FAIL.stack_overflow") != "turtle_chain" and impl.get("FAIL.stack_growth") != "turtle_chain":
-        return False
-    return failure.get("field") in ("FAIL.stack_overflow", "FAIL.stack_growth", "outcome")
